@@ -350,7 +350,7 @@ def shrink(drvs, orc, U, ops, opt, section, budget=60):
     return ops
 
 
-def compare(ctx, hists, res, drvs, orc, do_shrink=True):
+def compare(ctx, hists, res, drvs, orc, do_shrink=True, seen_kinds=None):
     groups = [(header(h["U"]), h["ops"]) for h in hists]
     exp = core.run_grouped_parallel(orc, groups)
     obs = {}
@@ -361,7 +361,7 @@ def compare(ctx, hists, res, drvs, orc, do_shrink=True):
         r = core.run_grouped_parallel(drvs[k], [groups[i] for i in idx])
         for i, x in zip(idx, r):
             obs[(i, k)] = x
-    seen_kinds = set()
+    seen_kinds = seen_kinds if seen_kinds is not None else {}
     for i, h in enumerate(hists):
         he, ae = exp[i]
         res.count("stream:" + h["stream"])
@@ -377,7 +377,7 @@ def compare(ctx, hists, res, drvs, orc, do_shrink=True):
                     res.violation(kind, "algorithm model and specification disagree on a history inside the documented preconditions: "
                                   "%s | %s -> %s" % (header(h["U"]), "; ".join(h["ops"][:j + 1]), sp or e[:200]),
                                   {"U": h["U"], "ops": h["ops"][:j + 1], "opts": []}, expected=sp, observed=None)
-                    seen_kinds.add(kind)
+                    seen_kinds[kind] = 1
                 break
             if "|e=1|" in e:
                 res.count("state:empty")
@@ -394,14 +394,18 @@ def compare(ctx, hists, res, drvs, orc, do_shrink=True):
             res.count("optset:" + OPTSETS[k], len(h["ops"]))
             res.evaluations += len(h["ops"])
             res.traces_validated += len(h["ops"])
+            if any(o.startswith(("CRASH", "DIED")) for o in ao):
+                # a crash may be the machine (memory pressure from parallel jobs): repeat this history alone once
+                res.count("crash-repeated")
+                ho, ao = core.run_grouped(drvs[k], [groups[i]])[0]
             for j, (e, o) in enumerate(zip(ae, ao)):
                 es = strip(e)
                 if es != o:
                     sec = first_diff_section(es, o) if not o.startswith(("CRASH", "DIED")) else o.split()[0]
                     kind = "%s:%s" % (OPTSETS[k], sec)
                     ops = h["ops"][:j + 1]
-                    if kind not in seen_kinds and do_shrink:
-                        seen_kinds.add(kind)
+                    if kind not in seen_kinds and do_shrink and not os.environ.get("C01_NOSHRINK"):
+                        seen_kinds[kind] = 1
                         try:
                             ops = shrink(drvs, orc, h["U"], ops, k, sec)
                             ee, oo = run_case(drvs, orc, h["U"], ops, [k])
@@ -439,16 +443,28 @@ def check(ctx, replay=None):
                     c = json.load(open(os.path.join(cdir, f)))
                     hists.append(dict(U=c["U"], ops=c["ops"], opts=c.get("opts") or BASE, stream="corpus", contig=False, zero=False))
         nh = 2000 if ctx.tier == "quick" else 20000
-        hists += generate(ctx.rng, nh)
-        compare(ctx, hists, res, drvs, orc)
-    res.distinct = set((tuple(h["U"]), tuple(h["ops"])) for h in hists)
+        seen = {}
+        samples = []
+        done = 0
+        while done < nh:
+            # batches keep the memory of the Python side bounded (each dump line is several kB)
+            batch = hists + generate(ctx.rng, min(1000, nh - done))
+            hists = []
+            done += 1000
+            compare(ctx, batch, res, drvs, orc, seen_kinds=seen)
+            for h in batch:
+                res.distinct.add((tuple(h["U"]), tuple(h["ops"])))
+            samples += batch[:40:5]
+        hists = samples
+    if replay:
+        res.distinct = set((tuple(h["U"]), tuple(h["ops"])) for h in hists)
     res.rule = ("one case = (label universe, operation history with observation flags); after every operation of every case the whole "
                 "dump (membership+value+dimension of all subsets of the universe, vertex/complex/skeleton ranges, boundaries with opposite "
                 "vertices, star and cofaces of every simplex x codimension, counts, upper bound, operator== against a rebuilt and an empty "
                 "tree, optionally dimension() and num_simplices_by_dimension()) is compared for every applicable option set; "
                 "evaluations = operations x option sets; distinct = distinct (universe, history) pairs, each with at least one operation")
     res.exhaustive = False
-    res.samples = [dict(U=h["U"], ops=h["ops"][:6], opts=h["opts"]) for h in hists[:40:5]]
+    res.samples = [dict(U=h["U"], ops=h["ops"][:6], opts=h["opts"]) for h in hists[:8]]
     return core.finish(ctx, None, res, TRUSTED, ASSUMPTIONS, LEVEL,
                        "cd /verif/coq && make -f Makefile.coq Properties_C01.vo  (coqc 8.16.1; Print Assumptions after every theorem)",
                        correspondence_name=CORRESPONDENCE)
